@@ -154,8 +154,10 @@ fn build_fx(sc: &Scenario) -> Fx {
         _ => 3,
     };
     let npoly = if sc.driver == "jacobian" { sc.m } else { 1 };
-    let polys = (0..npoly).map(|_| Poly::gen(&mut r, nv, max_deg, sc.simple)).collect();
-    let (a, b): (Vec<f64>, Vec<[f64; 2]>) = if sc.simple {
+    // the "simplest function and point" has the value 1^2 + 2^2 + ... + n^2, which an f32 holds exactly only for moderate n
+    let simple = sc.simple && !(sc.scalar == "f32" && nv > 64);
+    let polys = (0..npoly).map(|_| Poly::gen(&mut r, nv, max_deg, simple)).collect();
+    let (a, b): (Vec<f64>, Vec<[f64; 2]>) = if simple {
         ((0..nv).map(|i| (i + 1) as f64).collect(), (0..nv).map(|i| if i % 2 == 0 { [1.0, 0.0] } else { [-1.0, 2.0] }).collect())
     } else {
         // a coordinate that is zero is -0.0 one time in three (K9: the closure must be handed the caller's point, sign included)
@@ -782,7 +784,14 @@ fn main() {
     let _ = VERIF_DIR.set(verif_dir.clone());
     let isolated = args.iter().any(|a| a == "--isolated");
     ISOLATED.store(isolated, std::sync::atomic::Ordering::Relaxed);
-    std::panic::set_hook(Box::new(|_| {}));
+    // panics are part of the simulation (the closure's, and the crate's own under a mutant): silent, except the harness's own
+    std::panic::set_hook(Box::new(|info| {
+        let msg = info.payload().downcast_ref::<&str>().map(|s| s.to_string()).or_else(|| info.payload().downcast_ref::<String>().cloned()).unwrap_or_default();
+        static SHOWN: std::sync::atomic::AtomicU32 = std::sync::atomic::AtomicU32::new(0);
+        if msg.contains("harness") || (std::env::var("VERIF_DEBUG_PANICS").is_ok() && !msg.is_empty() && SHOWN.fetch_add(1, std::sync::atomic::Ordering::Relaxed) < 8) {
+            eprintln!("panic: {msg} at {:?}", info.location().map(|l| format!("{}:{}", l.file(), l.line())));
+        }
+    }));
     if let Some(path) = arg(&args, "--replay") {
         let txt = std::fs::read_to_string(&path).unwrap_or_else(|e| { eprintln!("cannot read {path}: {e}"); std::process::exit(2) });
         let rf: ReplayFile = serde_json::from_str(&txt).unwrap_or_else(|e| { eprintln!("bad replay file: {e}"); std::process::exit(2) });
